@@ -441,8 +441,14 @@ func runScenario(t *testing.T, sc *Scenario) {
 						_ = json.Unmarshal(thisHonest[0], &o)
 					}
 					if st.Byz == "mutate" {
+						// a variant of every honest result for the same unit of work; the digest is the hex of the raw
+						// fields, so a 0x00 prefix sorts the variant BEFORE the honest copy and a 0xEE prefix after it
 						for k := range o.Performable {
-							o.Performable[k].PerformData = append([]byte{0xEE}, o.Performable[k].PerformData...)
+							pre := byte(0xEE)
+							if (k+int(seq))%2 == 0 {
+								pre = 0x00
+							}
+							o.Performable[k].PerformData = append([]byte{pre}, o.Performable[k].PerformData...)
 						}
 					} else {
 						// results nobody checked, well-formed
